@@ -179,8 +179,10 @@ class SRTM30:
 
             List of tile names that contain the elevation data for the ROI.
         """
+        # The western edge is mapped to [-180, 180), the eastern edge to
+        # (-180, 180], so that a rectangle may start at -180 and end at 180.
         lon_min = lon_min % 360
-        if lon_min > 180:
+        if lon_min >= 180:
             lon_min -= 360
 
         lon_max = lon_max % 360
